@@ -326,7 +326,7 @@ def admissibleB (s : State) : Op → Bool
       | some P => (s.σ.astF P.id == some f) && freshB s.σ (idsList new)
       | none => false)
   | .touch _ => true
-  | .touchall _ _ _ _ => false
+  | .touchall _ _ _ _ => true
 
 /-! ### cache clearing of the `_offset` walk (fst_core.py:1722-1779) -/
 
